@@ -1,15 +1,26 @@
 #!/bin/sh
-# applies every seeded change in turn to a scratch worktree of /repo (never to /repo itself), runs
-# the quick check of its property against it through VERIF_REPO, and removes the worktree.
+# usage: tools/all_mutants.sh [workers] [id-pattern]
+# applies every seeded change in turn to scratch worktrees of /repo (never to /repo itself), runs the
+# quick check of its property against it through VERIF_REPO, and removes the worktrees. Several
+# workers share the build lock of ./check and run their streams side by side.
 # Evidence files written by these runs describe patched trees: re-run the real checks afterwards.
 cd /verif
-wt=${VERIF_SCRATCH:-/tmp/verif-mutants-$$}
-git -C /repo worktree add -q --detach "$wt" HEAD || exit 2
-for d in /verif/seeded/*/; do
-  id=$(basename "$d"); prop=${id%%-*}
-  git -C "$wt" checkout -q -- .
-  if ! git -C "$wt" apply "$d/patch.diff" 2>/dev/null; then echo "$id: patch no longer applies"; continue; fi
-  out=$(VERIF_REPO="$wt" ./check "$prop" quick 2>&1 | grep -v '^KNOWN-FINDING' | tail -1)
-  echo "$id: $out"
-done
-git -C /repo worktree remove --force "$wt"
+workers=${1:-1}; pat=${2:-C}
+ids=$(ls /verif/seeded | grep "$pat")
+run_worker() {
+  k=$1; wt=/tmp/verif-mutants-$$-$k
+  git -C /repo worktree add -q --detach "$wt" HEAD || exit 2
+  i=0
+  for id in $ids; do
+    i=$((i+1)); [ $((i % workers)) -eq $((k % workers)) ] || continue
+    prop=${id%%-*}
+    git -C "$wt" checkout -q -- .
+    if ! git -C "$wt" apply "/verif/seeded/$id/patch.diff" 2>/dev/null; then echo "$id: patch no longer applies"; continue; fi
+    out=$(VERIF_REPO="$wt" ./check "$prop" quick 2>&1 | grep -v '^KNOWN-FINDING' | tail -3 | tr '\n' ' ' | cut -c1-500)
+    echo "$id: $out"
+  done
+  git -C /repo worktree remove --force "$wt"
+}
+k=0
+while [ $k -lt $workers ]; do run_worker $k & k=$((k+1)); done
+wait
